@@ -62,7 +62,9 @@ func fixedMIDs() []midCase {
 		up := strings.Repeat("../", depth)
 		add("dotdot", up+"x", up+"decoy")
 		add("dotdot-folder", up+"in/x", up+"sent/y")
+		add("dotdot-special", up+"empty", up+"folder", up+"ro")
 	}
+	add("dotdot-special", "/abs/empty", "/empty", "../../other/in/empty", "/l1/empty")
 	add("dotdot", "../AAAAAAAAAAA1", "../../AAAAAAAAAAA1", "../../../../../../../../../../../../x", "../../other/in/x", "../../mbox2/in/x", "../../link")
 	add("absolute", "/abs/x", "/x", "/etc/passwd", "/tmp/x", "//abs/x", "/l1/x", "/l1/l2/l3/l4/l5/l6/x")
 	add("subpath", "a/b", "in/x", "x/y/z", "./x", "x/.", "x/")
@@ -128,7 +130,7 @@ func prngMID(seed int64, i int) string {
 		b.WriteString(".." + sep())
 	}
 	b.WriteString(vrt.Pick(r, []string{"", "", "", "in/", "out/", "sent/", "archive/", "other/in/", "mbox2/in/", "mbox/in/", "l6/", "l5/l6/", "l1/", "l1/l2/", "abs/", "etc/", "tmp/", "a/"}))
-	b.WriteString(vrt.Pick(r, []string{"x", "x", "y", "decoy", "AAAAAAAAAAA1", "new", "passwd", "link", "b", "VALIDIN00001", "..", "."}))
+	b.WriteString(vrt.Pick(r, []string{"x", "x", "y", "decoy", "AAAAAAAAAAA1", "new", "passwd", "link", "b", "VALIDIN00001", "..", ".", "empty", "empty", "folder", "ro"}))
 	switch r.Intn(12) {
 	case 0:
 		b.WriteString("\x00")
